@@ -452,11 +452,13 @@ class Orchestrator:  # thailint: ignore[srp]
 
     def _is_linter_ignored(self, violation: Violation) -> bool:
         """Check a violation's file against the `ignore` list of its linter's section."""
+        # (lazy-ignores documents its list under the name ignore_patterns)
         patterns = [
             str(pattern)
             for section in self._rule_sections(violation.rule_id)
-            if isinstance(section.get("ignore"), list)
-            for pattern in section["ignore"]
+            for key in ("ignore", "ignore_patterns")
+            if isinstance(section.get(key), list)
+            for pattern in section[key]
         ]
         if not patterns:
             return False
